@@ -40,7 +40,17 @@ Plain(k) == k.kid = NONE /\ k.use = NONE /\ k.ops = <<>> /\ k.alg = NONE
 Kds == AsymMeta \cup AsymEnc \cup OctMeta \cup OctEnc
 
 L(via, doc, kds) == [op |-> "Load", ring |-> 0, via |-> via, doc |-> doc, keys |-> kds]
-C08Scripts == { <<L("create", "single", <<k>>)>> : k \in Kds }
+\* history: a defective key imported earlier - in the same set, or by an earlier call - must not change
+\* how a well-formed key is imported
+BadEc == { WithDefect(AsymKey("p256a", 0, NONE, "bad"), "y", "foreign"), WithDefect(AsymKey("p384a", 1, NONE, "bad"), "crv", "unknownstr"),
+           WithDefect(AsymKey("p256a", 0, NONE, "bad"), "x", "short"), WithDefect(AsymKey("rsa2048a", 1, NONE, "bad"), "d", "absent"),
+           WithDefect(AsymKey("ed25519a", 0, NONE, "bad"), "x", "short") }
+HistKds == { X(AsymKey(b, p, NONE, "good"), E0 @@ [extra |-> <<>>]) : b \in {"rsa2048a", "p256a", "p384a", "p521a", "k256a", "ed25519a", "ed448a"}, p \in {0, 1} }
+           \cup { X(OctKey(32, "a", NONE, "good"), E0 @@ [extra |-> <<>>]) }
+HistoryScripts ==
+  { <<L("create", "keys", <<bad, k>>)>> : bad \in BadEc, k \in HistKds }
+  \cup { <<L("create", "single", <<bad>>), L("load", "single", <<k>>), L("load", "keys", <<bad, k, k>>)>> : bad \in BadEc, k \in HistKds }
+C08Scripts == HistoryScripts \cup { <<L("create", "single", <<k>>)>> : k \in Kds }
               \cup { <<L("create_strn", "keys", <<k>>)>> : k \in { x \in Kds : Plain(x) } }
 MCSpec == ISpecWith(C08Scripts)
 =============================================================================
